@@ -16,6 +16,7 @@ import (
 	"reflect"
 	"sort"
 	"strings"
+	"syscall"
 	"time"
 
 	"github.com/tsawler/tabula"
@@ -23,6 +24,7 @@ import (
 	"github.com/tsawler/tabula/core"
 	"github.com/tsawler/tabula/font"
 	"github.com/tsawler/tabula/format"
+	"github.com/tsawler/tabula/htmldoc"
 	"github.com/tsawler/tabula/reader"
 
 	"verifharness/fw"
@@ -53,7 +55,10 @@ func entriesFor(kind string) []string {
 	case "pdf":
 		return []string{"PageCount", "Text", "Fragments", "ToMarkdown", "Chunks", "Document", "Analyze", "Lines", "Paragraphs", "Blocks", "ReadingOrder", "Headings", "Lists", "Elements",
 			"IsCharacterLevel", "IsMultiColumn", "ByColumn.Text", "JoinParagraphs.Text", "PreserveLayout.Text", "ExcludeHF.Text", "Pages(1).Text", "PageRange(1,2).Fragments", "Detect", "reader.Images", "reader.Objects", "Extractor.Sequence", "FromReader.Sequence"}
-	case "docx", "odt", "xlsx", "pptx", "epub", "html":
+	case "html":
+		return []string{"PageCount", "Text", "ToMarkdown", "Chunks", "Document", "ExcludeHF.Text", "Detect", "Reader.API", "Aggressive",
+			"Fragments", "Lines", "Analyze", "IsCharacterLevel", "IsMultiColumn", "Pages(1).Text"}
+	case "docx", "odt", "xlsx", "pptx", "epub":
 		return []string{"PageCount", "Text", "ToMarkdown", "Chunks", "Document", "ExcludeHF.Text", "Detect", "Reader.API",
 			// format-mismatched calls: PDF-only methods on non-PDF inputs must return errors
 			"Fragments", "Lines", "Analyze", "IsCharacterLevel", "IsMultiColumn", "Pages(1).Text"}
@@ -67,6 +72,8 @@ func entriesFor(kind string) []string {
 		return []string{"core.Stream.Decode"}
 	case "raw-html":
 		return []string{"FromHTMLString.Text", "FromHTMLString.ToMarkdown", "FromHTMLString.Chunks"}
+	case "raw-htmlcost":
+		return []string{"Aggressive.cost"}
 	}
 	return nil
 }
@@ -180,6 +187,50 @@ func runEntry(path, entry string) (er entryResult) {
 	case "PageRange(1,2).Fragments":
 		_, _, err := tabula.Open(path).PageRange(1, 2).Fragments()
 		set(err)
+	case "Aggressive":
+		// the strictest navigation-exclusion mode (link-density heuristics) of the
+		// HTML reader, which the facade never selects by itself
+		rd, err := htmldoc.Open(path)
+		if err != nil {
+			set(err)
+			return
+		}
+		o := htmldoc.ExtractOptions{NavigationExclusion: htmldoc.NavigationExclusionAggressive}
+		_, err = rd.TextWithOptions(o)
+		if _, e2 := rd.MarkdownWithOptions(o); err == nil {
+			err = e2
+		}
+		if _, e3 := rd.DocumentWithOptions(o); err == nil {
+			err = e3
+		}
+		rd.Close()
+		set(err)
+	case "Aggressive.cost":
+		// the strict mode adds a link-density measurement per container; its cost must stay
+		// comparable to the plain walk of the same document (not grow with depth x size).
+		// Compared within this process on this input; only slow documents are looked at.
+		cost := func(mode htmldoc.NavigationExclusionMode) (time.Duration, error) {
+			t0 := cpuNow() // Open parses the document and extracts it in the default mode
+			rd, err := htmldoc.Open(path)
+			if err != nil {
+				return 0, err
+			}
+			defer rd.Close()
+			_, err = rd.TextWithOptions(htmldoc.ExtractOptions{NavigationExclusion: mode})
+			return cpuNow() - t0, err
+		}
+		std, err := cost(htmldoc.NavigationExclusionStandard)
+		if err != nil {
+			set(err)
+			return
+		}
+		agg, err := cost(htmldoc.NavigationExclusionAggressive)
+		set(err)
+		if std >= 200*time.Millisecond && agg > 5*std/2+300*time.Millisecond {
+			er.Outcome = "superlinear"
+			er.Site = "htmldoc.aggressive-mode"
+			er.Msg = fmt.Sprintf("aggressive navigation exclusion cost %.1fs CPU on a document whose standard extraction costs %.1fs", agg.Seconds(), std.Seconds())
+		}
 	case "Reader.API":
 		rd, err := openFormatReader(kindOfPath(path), path)
 		if err != nil {
@@ -439,6 +490,9 @@ func runCase(c *fw.Ctx, pool *fw.Pool, cs *Case, dir string) []outcome {
 			if er.Outcome == "panic" {
 				outs = append(outs, outcome{sig: "panic@" + er.Site, kind: "panic", entry: er.Entry, msg: er.Msg, stack: er.Stack})
 			}
+			if er.Outcome == "superlinear" {
+				outs = append(outs, outcome{sig: "superlinear@" + er.Site, kind: "superlinear", entry: er.Entry, msg: er.Msg})
+			}
 		}
 	}
 	switch res.Kind {
@@ -571,4 +625,11 @@ func fnv(b []byte) uint64 {
 		h *= 1099511628211
 	}
 	return h
+}
+
+// cpuNow returns the CPU time (user + system) this process has consumed.
+func cpuNow() time.Duration {
+	var ru syscall.Rusage
+	syscall.Getrusage(syscall.RUSAGE_SELF, &ru)
+	return time.Duration(ru.Utime.Nano() + ru.Stime.Nano())
 }
